@@ -181,6 +181,90 @@ class Facts:
             for adt in data["adts"]:
                 self.adts[norm_path(adt["path"])] = adt
         self.repo = REPO
+        if not os.environ.get("VERIF_NO_INLINE"):
+            self._inline_new_helpers()
+
+    def _inline_new_helpers(self):
+        """A behaviour-preserving refactoring often moves a few lines of a function the rules know into a new private
+        helper.  The rules are written against the functions that exist today (rules/known_functions.txt, names only);
+        every *other* non-recursive function of the workspace is treated as such a helper: each call of it is replaced by
+        a block `{ let <param> = <arg>; ..; <body> }` (hids renamed per call site) in its callers, and the helper itself
+        is dropped from the function table, so that the rules see the code where it used to be."""
+        import copy
+        from hir import call_args
+        kf = os.path.join(os.path.dirname(os.path.abspath(__file__)), "known_functions.txt")
+        if not os.path.exists(kf):
+            return
+        known = set(open(kf).read().split())
+        helpers = {p: fn for p, fn in self.fns.items()
+                   if p not in known and fn.get("body") is not None and "{closure" not in p and fn["_crate"] != "sylt-bin"
+                   and "::test" not in p and "[" not in p}
+        if not helpers:
+            return
+
+        def callees(n, out):
+            if isinstance(n, dict):
+                if n.get("k") in ("Call", "MethodCall") and n.get("callee"):
+                    out.add(norm_path(n["callee"]))
+                for v in n.values():
+                    callees(v, out)
+            elif isinstance(n, list):
+                for v in n:
+                    callees(v, out)
+            return out
+        graph = {p: callees(fn["body"], set()) & set(helpers) for p, fn in helpers.items()}
+        recursive = set()
+        for p in helpers:
+            seen, todo = set(), list(graph[p])
+            while todo:
+                q = todo.pop()
+                if q == p:
+                    recursive.add(p)
+                    break
+                if q not in seen:
+                    seen.add(q)
+                    todo += list(graph.get(q, ()))
+        helpers = {p: fn for p, fn in helpers.items() if p not in recursive}
+        counter = [0]
+
+        def rename(n, suffix):
+            if isinstance(n, dict):
+                if isinstance(n.get("hid"), str):
+                    n["hid"] = n["hid"] + suffix
+                for v in n.values():
+                    rename(v, suffix)
+            elif isinstance(n, list):
+                for v in n:
+                    rename(v, suffix)
+
+        def inline(n, depth):
+            if isinstance(n, list):
+                return [inline(x, depth) for x in n]
+            if not isinstance(n, dict):
+                return n
+            n = {k: inline(v, depth) for k, v in n.items()}
+            if n.get("k") in ("Call", "MethodCall") and n.get("callee") and depth < 4:
+                hp = norm_path(n["callee"])
+                h = helpers.get(hp)
+                if h is not None:
+                    args = call_args(n)
+                    if len(args) == len(h.get("params", [])):
+                        counter[0] += 1
+                        hc = copy.deepcopy({"params": h["params"], "body": h["body"]})
+                        rename(hc, "#%d" % counter[0])
+                        stmts = [{"k": "Let", "pat": prm["pat"], "init": a, "sp": n.get("sp")} for prm, a in zip(hc["params"], args)]
+                        body = inline(hc["body"], depth + 1)
+                        return {"k": "Block", "stmts": stmts, "e": body, "sp": n.get("sp"), "ty": n.get("ty"), "inlined": hp}
+            return n
+        for p, fn in list(self.fns.items()):
+            if p in helpers or fn.get("body") is None:
+                continue
+            fn["body"] = inline(fn["body"], 0)
+        for p in helpers:
+            del self.fns[p]
+            for c, data in self.crates.items():
+                data["fns"] = [f for f in data["fns"] if f.get("_path") != p]
+        self.inlined_helpers = sorted(helpers)
 
     # -- functions
     def fn(self, path):
